@@ -1,6 +1,7 @@
 import OAuth2Model.Driver.Proto
 import OAuth2Model.Driver.Req
 import OAuth2Model.Driver.Poll
+import OAuth2Model.Driver.AuthUrl
 
 def dispatch (line : String) : String :=
   match (line.trimAscii.toString.splitOn " ").filter (· ≠ "") with
@@ -9,6 +10,7 @@ def dispatch (line : String) : String :=
     match op with
     | "req" => Drv.ReqOp.run args
     | "poll" => Drv.PollOp.run args
+    | "authurl" => Drv.AuthUrlOp.run args
     | _ => "bad-op"
 
 partial def loop (h : IO.FS.Stream) (out : IO.FS.Stream) : IO Unit := do
